@@ -1,5 +1,6 @@
 import Yuiv.Proofs.C07
 import Yuiv.Proofs.C07Alg
+import Yuiv.Proofs.C07Bridge
 /-
 C07 — homology of a chain complex over a Euclidean domain is computed correctly.
 
@@ -12,6 +13,9 @@ Property theorems only.  Two groups:
     `devectorize`/`gen`) which the code assembles satisfy  p·q = I,  d2·q = 0,  (p·d1) = [0 ; diag(a)·rows of Q1⁻¹].
     The block ranges of the code are arbitrary injective index maps here; `homcalc_fin` instantiates them with
     the literal ranges `r1..n`, `r1-t..r1`, `r2..n-r1`.
+
+(A') `calcTrans_correct`: the executable code model of `HomologyCalc::trans` (Model/C07Calc.lean) returns, without
+    panicking, exactly these matrices for the literal ranges, hence inherits the three statements.
 
 (B) `check_*`: soundness of the executable checker `Yuiv.C07.check` (the SAME function the driver `yuivd_c07`
     runs on every answer of the real code): verdict `ok` ⇒ the answer `(rank, tors, P, Q)` of the implementation
@@ -90,6 +94,34 @@ theorem homcalc_boundary_coords (d1 : Matrix N M R) (P1 : Matrix N N R) (Q1 Q1i 
     refine ⟨∑ j, Q1i (cT t) j * x j, ?_⟩
     simp [Matrix.mulVec, dotProduct, Finset.mul_sum, mul_assoc]
 
+/-- **completeness**: a cycle whose free coordinates vanish and whose torsion coordinates are divisible by the orders
+is a boundary — together with `homcalc_pq`, `homcalc_cycles`, `homcalc_boundary_coords` this says that `z ↦ p·z`
+induces an isomorphism `ker d2 / im d1 ≅ R^F ⊕ ⊕_t R/(a_t)`.  Hypotheses: the full SNF specification
+(`eN : A ⊕ B ≃ N`: non-zero / zero rows of `S1`; `eB : B2 ⊕ F ≃ B`: non-zero / zero columns of `S2`;
+the diagonal entries of `S1` outside the torsion block `jT` are units). -/
+theorem homcalc_complete [NoZeroDivisors R] {A B2 : Type*} [Fintype A] [Fintype B2] [DecidableEq A] [DecidableEq B2]
+    (d1 : Matrix N M R) (d2 : Matrix K N R) (P1 P1i : Matrix N N R) (Q1 : Matrix M M R) (S1 : Matrix N M R)
+    (P2 : Matrix K K R) (Q2 Q2i : Matrix B B R) (S2 : Matrix K B R)
+    (eN : A ⊕ B ≃ N) (eB : B2 ⊕ F ≃ B) (jT : T → A) (cA : A → M) (rB : B2 → K) (α : A → R) (β : B2 → R)
+    (hdd : d2 * d1 = 0)
+    (hS1 : S1 = P1 * d1 * Q1) (hP1 : P1i * P1 = 1)
+    (hrowA : ∀ a j, S1 (eN (Sum.inl a)) j = if j = cA a then α a else 0)
+    (hcolA : ∀ a i, S1 i (cA a) = if i = eN (Sum.inl a) then α a else 0)
+    (hrowB : ∀ b j, S1 (eN (Sum.inr b)) j = 0)
+    (hα : ∀ a, α a ≠ 0) (hunit : ∀ a, (∃ t, a = jT t) ∨ IsUnit (α a))
+    (hS2 : S2 = P2 * d2' d2 P1i (fun b => eN (Sum.inr b)) * Q2) (hQ2 : Q2 * Q2i = 1)
+    (hrow2 : ∀ b j, S2 (rB b) j = if j = eB (Sum.inl b) then β b else 0) (hβ : ∀ b, β b ≠ 0)
+    (z : N → R) (hz : d2 *ᵥ z = 0)
+    (hfree : ∀ f, (pMat P1 Q2i (fun b => eN (Sum.inr b)) (fun t => eN (Sum.inl (jT t))) (fun f => eB (Sum.inr f)) *ᵥ z)
+      (Sum.inl f) = 0)
+    (htor : ∀ t, α (jT t) ∣ (pMat P1 Q2i (fun b => eN (Sum.inr b)) (fun t => eN (Sum.inl (jT t)))
+      (fun f => eB (Sum.inr f)) *ᵥ z) (Sum.inr t)) :
+    ∃ x : M → R, d1 *ᵥ x = z := by
+  refine cycle_with_zero_coords_is_boundary d1 d2 P1 P1i Q1 S1 P2 Q2 Q2i S2 eN eB jT cA rB α β hdd hS1 hP1
+    hrowA hcolA hrowB hα hunit hS2 hQ2 hrow2 hβ z hz ?_ ?_
+  · ext f; exact hfree f
+  · intro t; exact htor t
+
 /-- the non-unit entries of a divisibility chain are a suffix, so the code's torsion list
 (`factors().filter(!is_unit)`, length `t`) is `a[r1-t..r1]`, aligned with the rows `r1-t..r1` of `P1`. -/
 theorem torsion_block_position (unit : R → Bool) (hunit : ∀ x y, x ∣ y → unit y = true → unit x = true)
@@ -121,14 +153,6 @@ end algebra
 
 section fin
 variable {R : Type*} [CommRing R] [NoZeroDivisors R]
-
-/-- rows/columns `lo .. lo+len` of an index set of size `n` -/
-def rangeMap (lo len n : Nat) (h : lo + len ≤ n) : Fin len → Fin n := fun i => ⟨lo + i.val, by omega⟩
-
-theorem rangeMap_injective (lo len n : Nat) (h : lo + len ≤ n) : Function.Injective (rangeMap lo len n h) := by
-  intro i j hij
-  simp only [rangeMap, Fin.mk.injEq] at hij
-  exact Fin.ext (by omega)
 
 /-- **`HomologyCalc::trans` with the literal ranges.**  `n, m, k` the dimensions, `r1, r2` the ranks of the two Smith
 forms, `t ≤ r1` the number of torsion factors, `S1 = diag(a_0, …, a_{r1-1}, 0, …)` with `a_i ≠ 0`,
@@ -191,6 +215,70 @@ theorem homcalc_fin (n m k r1 r2 t : Nat) (ht : t ≤ r1) (hr1n : r1 ≤ n) (hr1
         simp [this, h]
 
 end fin
+
+/-! ### the code model of `HomologyCalc::trans` -/
+
+/-- **the code model is correct given the SNF specification.**  If the two SNF results carry transformation
+matrices of the right shapes which satisfy the SNF specification for `d1` resp. `d2' = d2·P1⁻¹[:, r1..n]`
+(over `ℤ`; `Q1`, `P2` are not computed by the code and only need to exist), then the model
+`calcTrans` (Model/C07Calc.lean — `HomologyCalc::trans` branch by branch, with every `unwrap`, range assertion and
+`usize` subtraction as a possible panic) does not panic and returns `Trans::new(p, q)` with
+`p·q = I`, `d2·q = 0` and `p·d1 = [0 ; diag(a_{r1-t..r1}) · rows of Q1⁻¹]`. -/
+theorem calcTrans_correct (d1 d2 : Mat) (s1 s2 : Snf) (P1 P1i Q2 Q2i : Mat) (n m k r1 r2 t : Nat)
+    (hp : s1.p = some P1) (hpi : s1.pinv = some P1i) (hq : s2.q = some Q2) (hqi : s2.qinv = some Q2i)
+    (hn : s1.result.r = n) (hr1 : s1.rank = r1) (hr2 : s2.rank = r2)
+    (ht : (s1.factors.filter fun a => !isUnitZ a).length = t)
+    (h12 : r1 + r2 ≤ n) (htr : t ≤ r1) (hr1m : r1 ≤ m)
+    (sP1 : P1.r = n ∧ P1.c = n) (sP1i : P1i.r = n ∧ P1i.c = n)
+    (sQ2 : Q2.r = n - r1 ∧ Q2.c = n - r1) (sQ2i : Q2i.r = n - r1 ∧ Q2i.c = n - r1)
+    (Q1 Q1i : Matrix (Fin m) (Fin m) ℤ) (P2 P2i : Matrix (Fin k) (Fin k) ℤ) (a : Nat → ℤ)
+    (hdd : d2.toM k n * d1.toM n m = 0)
+    (hP1 : P1.toM n n * P1i.toM n n = 1) (hP1' : P1i.toM n n * P1.toM n n = 1) (hQ1 : Q1 * Q1i = 1)
+    (hP2 : P2i * P2 = 1) (hQ2 : Q2i.toM (n - r1) (n - r1) * Q2.toM (n - r1) (n - r1) = 1)
+    (hS1 : s1.result.toM n m = P1.toM n n * d1.toM n m * Q1)
+    (hdiag1 : ∀ i j, s1.result.toM n m i j = if i.val = j.val ∧ i.val < r1 then a i.val else 0)
+    (ha : ∀ i, i < r1 → a i ≠ 0)
+    (hS2 : s2.result.toM k (n - r1) =
+      P2 * d2' (d2.toM k n) (P1i.toM n n) (rangeMap r1 (n - r1) n (by omega)) * Q2.toM (n - r1) (n - r1))
+    (hcol2 : ∀ i (j : Fin (n - r1)), r2 ≤ j.val → s2.result.toM k (n - r1) i j = 0) :
+    ∃ p q : Mat, calcTrans s1 s2 = .ok ⟨n, n - r1 - r2 + t, [p], [q]⟩ ∧
+      p.toM (n - r1 - r2 + t) n * q.toM n (n - r1 - r2 + t) = 1 ∧
+      d2.toM k n * q.toM n (n - r1 - r2 + t) = 0 ∧
+      p.toM (n - r1 - r2 + t) n * d1.toM n m =
+        (fromRows (0 : Matrix (Fin (n - r1 - r2)) (Fin m) ℤ)
+          (Matrix.of fun (u : Fin t) j => a (r1 - t + u.val) * Q1i ⟨r1 - t + u.val, by omega⟩ j)).submatrix
+          finSumFinEquiv.symm id := by
+  refine ⟨pModel P1 Q2i n r1 r2 t, qModel P1i Q2 n r1 r2 t,
+    calcTrans_eq s1 s2 P1 P1i Q2 Q2i n r1 r2 t hp hpi hq hqi hn hr1 hr2 ht h12 htr sP1 sP1i sQ2 sQ2i, ?_⟩
+  obtain ⟨h1, h2, h3⟩ := homcalc_fin n m k r1 r2 t htr (by omega) hr1m (by omega)
+    (d1.toM n m) (d2.toM k n) (P1.toM n n) (P1i.toM n n) Q1 Q1i (s1.result.toM n m) P2 P2i
+    (Q2.toM (n - r1) (n - r1)) (Q2i.toM (n - r1) (n - r1)) (s2.result.toM k (n - r1)) a
+    hdd hP1 hP1' hQ1 hP2 hQ2 hS1 hdiag1 ha hS2 hcol2
+  rw [pModel_toM P1 Q2i n r1 r2 t h12 htr sP1 sQ2i, qModel_toM P1i Q2 n r1 r2 t h12 htr sP1i sQ2]
+  refine ⟨?_, ?_, ?_⟩
+  · rw [sub_rows_mul_sub_cols', h1, Matrix.submatrix_one_equiv]
+  · have : d2.toM k n * (qMat (P1i.toM n n) (Q2.toM (n - r1) (n - r1)) (rangeMap r1 (n - r1) n (by omega))
+        (rangeMap (r1 - t) t n (by omega)) (rangeMap r2 (n - r1 - r2) (n - r1) (by omega))).submatrix id
+          finSumFinEquiv.symm
+        = (d2.toM k n * qMat (P1i.toM n n) (Q2.toM (n - r1) (n - r1)) (rangeMap r1 (n - r1) n (by omega))
+        (rangeMap (r1 - t) t n (by omega)) (rangeMap r2 (n - r1 - r2) (n - r1) (by omega))).submatrix id
+          finSumFinEquiv.symm := by
+      ext i j; simp [Matrix.mul_apply]
+    rw [this, h2]; rfl
+  · rw [← h3]
+    ext i j; simp [Matrix.mul_apply]
+
+/-- the code model runs: `calculate` with the self-contained SNF on `d1 = [[2,4,4],[-6,6,12],[10,-4,-16]]`, `d2 = 0`
+returns `Z/2 ⊕ Z/6 ⊕ Z/12` with coordinate maps which the checker accepts (so the hypotheses of
+`calcTrans_correct` are satisfiable by a non-trivial value: this SNF result) -/
+example :
+    (match calculate snfOwn ⟨3, 3, #[2, 4, 4, -6, 6, 12, 10, -4, -16]⟩ ⟨1, 3, #[0, 0, 0]⟩ true with
+     | .ok (rank, tors, some t) =>
+        match t.forwardMat, t.backwardMat with
+        | .ok P, .ok Q => rank == 0 && tors == [2, 6, 12] &&
+            check ⟨0, ⟨3, 3, #[2, 4, 4, -6, 6, 12, 10, -4, -16]⟩, ⟨1, 3, #[0, 0, 0]⟩, rank, tors.toArray, P, Q⟩ == .ok
+        | _, _ => false
+     | _ => false) = true := by decide +kernel
 
 /-! ### the checker applied to the answers of the real code -/
 
